@@ -3,6 +3,7 @@
 //!
 //! usage: nvmon <ID> --tier quick|thorough --seed N --shard i/n --out <dir> [--replay <file>]
 //!        nvmon merge-fps <file>...         (prints the number of distinct u64 fingerprints)
+//!        nvmon merge-c16 <file>...         (cross-shard Typst injectivity: COLLISION lines, then MERGED <records> <distinct texts>)
 
 mod desc;
 mod guard;
@@ -75,6 +76,35 @@ fn main() {
         all.sort_unstable();
         all.dedup();
         println!("{}", all.len());
+        return;
+    }
+    if args.len() >= 2 && args[1] == "merge-c16" {
+        // offline injectivity check over the text logs of all workers: the same text fingerprint
+        // with two different canonical-key fingerprints is a candidate collision
+        let mut seen: std::collections::HashMap<u64, (u64, usize)> = std::collections::HashMap::new();
+        let (mut records, mut shown) = (0usize, 0usize);
+        for (fi, f) in args[2..].iter().enumerate() {
+            if let Ok(bytes) = std::fs::read(f) {
+                for c in bytes.chunks_exact(16) {
+                    let t = u64::from_le_bytes(c[..8].try_into().unwrap());
+                    let k = u64::from_le_bytes(c[8..].try_into().unwrap());
+                    records += 1;
+                    match seen.get(&t) {
+                        Some((k0, f0)) if *k0 != k => {
+                            if shown < 8 {
+                                println!("COLLISION {} {} {} {} {}", t, k0, f0, k, fi);
+                                shown += 1;
+                            }
+                        }
+                        Some(_) => {}
+                        None => {
+                            seen.insert(t, (k, fi));
+                        }
+                    }
+                }
+            }
+        }
+        println!("MERGED {} {}", records, seen.len());
         return;
     }
     if args.len() >= 2 && args[1] == "fuzz-dict" {
